@@ -8,6 +8,7 @@ def impl_relatives(E, desc, cutoff, keep, starts):
     try:
         nodes = pd.DataFrame({"id": pd.Series(starts, dtype="int64")})
         edges = pd.DataFrame({"Src": pd.Series([a for a, _ in E], dtype="int64"), "Trg": pd.Series([b for _, b in E], dtype="int64")})
+        nodes = vlib.relabel(nodes, 1); edges = vlib.relabel(edges, 2)
         df = find_relatives(nodes=nodes, nodes_key_col="id", edges=edges, relative_type="descendant" if desc else "ancestor", cutoff=cutoff, keep_paths=keep)
         pcols = sorted(c for c in df.columns if isinstance(c, int))
         rows = []
@@ -64,7 +65,7 @@ def impl_paths(names, refs, root_name, type_names):
                               "NodeId": [UANodeId(1, "i", str(i)) for i in ids], "ns": [1] * len(ids)})
         rdf = pd.DataFrame({"Src": pd.Series([r[0] for r in refs], dtype="int64"), "Trg": pd.Series([r[1] for r in refs], dtype="int64"),
                             "ReferenceType": pd.Series([r[2] for r in refs], dtype="int64")})
-        g = UAGraph(nodes=nodes, references=rdf, namespaces=["http://opcfoundation.org/UA/", "urn:x"], models=[])
+        g = UAGraph(nodes=vlib.relabel(nodes, 2), references=vlib.relabel(rdf, 1), namespaces=["http://opcfoundation.org/UA/", "urn:x"], models=[])
         df = g.create_node_paths_by_reference_types(root_name, list(type_names))
         return ["ok", sorted([int(i), p] for i, p in zip(df["id"], df["NodePath"]))]
     except BaseException as e:
